@@ -438,7 +438,42 @@ func runConn(c *mon.Case, r *mon.Run, dir string, p params) {
 		c.Go(writers.Done, func() { writer(cc, c2s, cStream, cScript, cGaps, &up) })
 		writers.Wait()
 		synctest.Wait() // every goroutine is durably blocked: nothing more will happen without new traffic
-		judge("end")
+		if judge("end") {
+			// closing phase: one side writes a last piece and its connection ends (a
+			// half-close on the wire) while that piece is still in flight, so that
+			// the reader's last network read brings the end of the stream right
+			// behind the last frames or — as an io.Reader may — together with them.
+			// Everything written must be delivered before Read reports the end.
+			wconn, st, ds, half, name := cc, cStream, &up, c2s, "up"
+			if p.seed&1 != 0 {
+				wconn, st, ds, half, name = sc, sStream, &down, s2c, "down"
+			}
+			withData := p.seed&2 != 0
+			half.Pause(true)
+			writeOne(wconn, half, st, 1+rng.IntN(500), ds) // (one burst stays below the smallest wire window: the wire is held)
+			half.SetErrWithData(withData)
+			half.CloseWrite()
+			half.Pause(false)
+			synctest.Wait()
+			mu.Lock()
+			e := *ds
+			mu.Unlock()
+			r.Count("closing_phases", 1)
+			if withData {
+				r.Count("closing_phases_end_reported_with_last_data", 1)
+			}
+			switch {
+			case e.panicked:
+			case e.mismatch >= 0:
+				c.Violation("stream-mismatch/"+name+"/last-bytes-before-the-end", fmt.Sprintf("byte at offset %d delivered to the reader is not the byte the peer wrote there (the connection ended right behind the last burst; end reported together with data: %v); %s", e.mismatch, withData, p), p.String())
+			case e.readErr == nil:
+				c.Violation("end-not-reported/"+name, fmt.Sprintf("the peer's connection ended after %d bytes but Read has not reported it at quiescence (%d delivered); %s", e.written, e.delivered, p), p.String())
+			case e.delivered != e.written:
+				c.Violation("lost-at-end/"+name, fmt.Sprintf("%d bytes were written before the connection ended, Read reported the end (%v) after delivering %d (end reported together with data: %v); %s", e.written, e.readErr, e.delivered, withData, p), p.String())
+			default:
+				r.Count("closing_phases_all_delivered_before_the_end", 1)
+			}
+		}
 	}
 
 	// evidence
